@@ -43,7 +43,42 @@ pub fn unicode_dump() {
 }
 
 /// (uni <id> <lo> <hi>): flags of every code point in [lo, hi) that has any, same format as the driver
+fn tables_line() -> String {
+    let p = |name: &str, rs: Vec<(u32, u32)>| {
+        format!("{} {}", name, rs.iter().map(|(a, b)| format!("{}-{}", a, b)).collect::<Vec<_>>().join(","))
+    };
+    let mut lower = Vec::new();
+    for cp in 0u32..0x110000 {
+        if let Some(c) = char::from_u32(cp) {
+            let l: Vec<u32> = c.to_lowercase().map(|x| x as u32).collect();
+            if l != vec![cp] {
+                lower.push(format!("{}:{}", cp, l.iter().map(|x| x.to_string()).collect::<Vec<_>>().join("+")));
+            }
+        }
+    }
+    [
+        p("alphabetic", ranges(|c| c.is_alphabetic())),
+        p("numeric", ranges(|c| c.is_numeric())),
+        p("whitespace", ranges(|c| c.is_whitespace())),
+        p("uppercase", ranges(|c| c.is_uppercase())),
+        p("lowercase", ranges(|c| c.is_lowercase())),
+        format!("tolower {}", lower.join(",")),
+    ]
+    .join(";")
+}
+
 pub fn run_uni(op: &str, args: &[Sx]) -> Result<String, String> {
+    if op == "tables" {
+        return Ok(tables_line());
+    }
+    if op == "points" {
+        let mut parts = Vec::new();
+        for a in args {
+            let c = a.int()? as u32;
+            parts.push(run_uni(&c.to_string(), &[Sx::A((c + 1).to_string())])?);
+        }
+        return Ok(parts.join(";"));
+    }
     let lo: u32 = op.parse().map_err(|_| "lo")?;
     let hi: u32 = args.get(0).ok_or("hi")?.int()? as u32;
     let mut b = String::new();
